@@ -126,6 +126,8 @@ def _scratch_with(rel: str, new_src: str) -> Path:
     tmp = Path(tempfile.mkdtemp(prefix="verif-mut-"))
     shutil.copytree(REPO / "liquid2", tmp / "liquid2", ignore=shutil.ignore_patterns("__pycache__"))
     (tmp / rel).write_text(new_src)
+    os.symlink(REPO / "tests", tmp / "tests")  # the suite opens its data files relative to the working directory
+    os.symlink(REPO / "pyproject.toml", tmp / "pyproject.toml")
     return tmp
 
 
@@ -138,7 +140,7 @@ def test_one(jpath: str) -> str:
     try:
         env = dict(os.environ, PYTHONPATH=str(tmp), PYTHONDONTWRITEBYTECODE="1")
         try:
-            r = subprocess.run(["/venv/bin/python", "-m", "pytest", "-q", "-x", "-p", "no:cacheprovider", "-n", "3", "--timeout=120", str(REPO / "tests")], cwd=str(tmp), env=env, capture_output=True, text=True, timeout=600)
+            r = subprocess.run(["/venv/bin/python", "-m", "pytest", "-q", "-x", "-p", "no:cacheprovider", "-n", "3", "--timeout=120", "tests"], cwd=str(tmp), env=env, capture_output=True, text=True, timeout=600)
             tail = (r.stdout.strip().splitlines() or [""])[-1]
             meta["status"] = "survived" if r.returncode == 0 and "passed" in tail and "failed" not in tail and "error" not in tail else "killed"
         except subprocess.TimeoutExpired:
